@@ -365,6 +365,9 @@ def run(ctx, rep):
     balance.rule_bal(ctx, rep)
     balance.rule_unw(ctx, rep)
     rule_funnel(ctx, rep)
+    from . import c10 as _c10
+
+    _c10.rule_prot_mut(ctx, rep)  # a thin handle destroys (and frees) as many elements as the recorded length says: nothing lets safe code change it
     balance.rule_payload_dup(ctx, rep)  # a value read out bitwise while its handle is still armed is destroyed twice if something unwinds
     rule_destroy(ctx, rep)
     from . import c03
